@@ -56,6 +56,9 @@ func c11L1(r *Run, rep *core.Report) {
 	nExits := 0
 	classes := map[string]bool{}
 	for _, mm := range r.M.Maps {
+		if mm.Core == nil || len(mm.Problems) > 0 {
+			continue // this map's model is incomplete: reported by the properties that concern it
+		}
 		rep.Fn(fn(mm.Core))
 		ords := exitOrdinals(mm.Core)
 		for _, sp := range specsFor(r, mm.Core) {
@@ -614,6 +617,9 @@ func c11L3(r *Run, rep *core.Report) {
 	n := 0
 	for _, mm := range r.M.Maps {
 		for _, f := range []*ssa.Function{mm.Methods["Load"], mm.Core, mm.Copy} {
+			if f == nil {
+				continue // incomplete model of this map: reported by the properties that concern it
+			}
 			rep.Fn(fn(f))
 			core.Instrs(f, func(in ssa.Instruction) {
 				ia, ok := in.(*ssa.IndexAddr)
